@@ -37,8 +37,10 @@ def expected(method, status, v11, cl, te):
         mode = "chunked"
     elif n is not None:
         mode = "length #%d" % n
-    elif redirect:
-        mode = "nobody"
+    elif redirect and cl is None and te is None:
+        mode = "nobody"         # "a redirect without any framing header has no body"
+    elif redirect and te is not None and not all((32 <= c < 127) or c == 9 for c in te):
+        return ("dontcare",)    # a 3xx whose only framing header is not text: header present, value unusable -- not ordered by the statement
     else:
         mode = "close"
     body = mode not in ("nobody", "length #0")
@@ -97,6 +99,8 @@ def oracle(script, obs):
     i = next(k for k, op in enumerate(ops) if op.startswith("raw_try_response"))
     o = obs[i]
     cell = "%s %d HTTP/%s cl=%r te=%r%s" % (m, s, v, cl, te, "" if script["meta"].get("location", True) or not 300 <= s <= 399 else " (no Location field)")
+    if exp[0] == "dontcare":
+        return []
     if exp[0] == "err":
         if not o.startswith("err"):
             return ["%s: non-numeric Content-Length not an error: %s" % (cell, o[:60])]
